@@ -34,7 +34,7 @@ impl PartialOrd for Epoch {
 
 impl Epoch {
     /// contract of the real `u64::abs_diff`
-// ---- extracted from mithril-common/src/entities/epoch.rs:106 (fn has_gap_with) ----
+// ---- extracted from mithril-common/src/entities/epoch.rs:107 (fn has_gap_with) ----
 fn has_gap_with(&self, other: &Epoch) -> (ret: bool)
     ensures ret == !(self.0 == other.0 || self.0 as int + 1 == other.0 as int || other.0 as int + 1 == self.0 as int)
 {
@@ -595,6 +595,22 @@ fn verify_certificate(
             ?;
 
         Ok(Some(previous_certificate))
+    }
+// ---- end of extracted text ----
+// ---- extracted from mithril-common/src/certificate_chain/certificate_verifier.rs:116 (fn verify_certificate_chain) ----
+#[verifier::exec_allows_no_decreases_clause]
+fn verify_certificate_chain(&self, certificate: Certificate) -> (ret: Result<(), CertificateVerifierError>)
+    ensures ret is Ok ==> exists|g: Certificate| genesis_ok(&g)
+{
+        let mut certificate = certificate;
+        loop 
+        invariant true,
+        ensures genesis_ok(&certificate),
+    { let verif_next = self.verify_certificate(&certificate)?; if verif_next.is_none() { proof { assert(genesis_ok(&certificate)); } break; } let previous_certificate = verif_next.unwrap();
+            certificate = previous_certificate;
+        }
+
+        Ok(())
     }
 // ---- end of extracted text ----
 }
